@@ -42,3 +42,27 @@ def op_fold(req):
 
 
 OPS = {'fold': op_fold}
+
+
+_warm = [False]
+
+
+def op_audit(req):
+    from vf.oracle import monitor
+    if PY2:
+        src = req['src'].encode('utf-8') if 'src' in req else req['src_hex'].decode('hex')
+    else:
+        src = req['src'] if 'src' in req else bytes.fromhex(req['src_hex'])
+    if not _warm[0]:
+        try:
+            python_minifier.minify("import os\nx = 'q' + b'b'\ny = 1 + 2\nclass A(object):\n    def f(self): raise ValueError()\n")
+            if sys.version_info >= (3, 6):
+                python_minifier.minify("x = f'{a!r:>{b}} {1}'\n")
+        except Exception:
+            pass
+        monitor.MONITOR.install()
+        _warm[0] = True
+    return monitor.audit_minify(src, kwargs(req['opts']))
+
+
+OPS['audit'] = op_audit
